@@ -64,6 +64,7 @@ structure Page where
   ttl : Int              -- `ttlMs` of the result
   recv : Nat             -- `receivedAt` (ms of the session's clock)
   cur : Bool             -- GHOST (no function below reads it): received since the server's tool table last changed
+  deriving DecidableEq
 
 /-- The session: server table and settings, and the client's `toolsCache` — most recently received page first. -/
 structure World where
